@@ -97,7 +97,10 @@ def parseTask (name : String) (j : Json) : Except String TaskDefn := do
       let message ← req (jStr? m) "message"
       return (⟨trigger, message⟩ : OutDef)
     | _ => .error "bad output"
-  return { name, insts := sortInsts insts, firstParentless := fp, completion, outputs }
+  let execRetries := (jNatField? j "exec_retries").getD 0
+  let subRetries := (jNatField? j "sub_retries").getD 0
+  let hasAbs := (jBoolField? j "has_abs").getD false
+  return { name, insts := sortInsts insts, firstParentless := fp, completion, outputs, execRetries, subRetries, hasAbs }
 
 def parseRunahead (s : String) : Except String Nat :=
   match (s.drop 1).toNat? with
